@@ -64,6 +64,13 @@ struct Root {
   65: Leaf Hl,
 }
 struct RootNeg { -1: i32 N, 2: Leaf L, 3: required i32 R }
+typedef i32 Id
+typedef Id Id2
+typedef string Sid
+typedef Leaf TLeaf
+typedef map<i32,Leaf> ImT
+typedef list<TLeaf> LsT
+struct Tdr { 1: map<Id2,Leaf> Tm, 2: map<Sid,TLeaf> Tsm, 3: ImT Wm, 4: TLeaf Tl, 5: LsT Tls, 6: map<Id,Sid> Tss }
 `
 
 // ---------------------------------------------------------------- reference types
@@ -100,7 +107,11 @@ func refTypes() map[string]*rtype {
 	root := &rtype{kind: kStruct, name: "Root", fields: []rfield{
 		{1, "S", sc}, {2, "M", mid}, {3, "Lm", &rtype{kind: kList, elem: mid}}, {4, "Ss", &rtype{kind: kStrMap, elem: sc}}, {63, "E63", sc}, {64, "Hi", sc}, {65, "Hl", leaf}}}
 	rneg := &rtype{kind: kStruct, name: "RootNeg", fields: []rfield{{-1, "N", sc}, {2, "L", leaf}, {3, "R", sc}}}
-	return map[string]*rtype{"Root": root, "Mid": mid, "RootNeg": rneg}
+	// everything written through typedefs: map keys, map values, whole containers, struct
+	tdr := &rtype{kind: kStruct, name: "Tdr", fields: []rfield{
+		{1, "Tm", &rtype{kind: kIntMap, elem: leaf}}, {2, "Tsm", &rtype{kind: kStrMap, elem: leaf}}, {3, "Wm", &rtype{kind: kIntMap, elem: leaf}}, {4, "Tl", leaf},
+		{5, "Tls", &rtype{kind: kList, elem: leaf}}, {6, "Tss", &rtype{kind: kIntMap, elem: sc}}}}
+	return map[string]*rtype{"Root": root, "Mid": mid, "RootNeg": rneg, "Tdr": tdr}
 }
 
 // ---------------------------------------------------------------- paths
@@ -765,7 +776,7 @@ func main() {
 	}
 	_, fd := thrift_reflection.RegisterAST(ast)
 	c := &ctx{run: run, descs: map[string]*thrift_reflection.TypeDescriptor{}, rt: refTypes()}
-	for _, r := range []string{"Root", "Mid", "RootNeg"} {
+	for _, r := range []string{"Root", "Mid", "RootNeg", "Tdr"} {
 		c.descs[r] = getDesc(fd, r)
 	}
 	if *replay != "" {
@@ -798,7 +809,7 @@ func main() {
 
 	// ---- (a) valid path lists
 	var transitions int64
-	for _, root := range []string{"Mid", "Root", "RootNeg"} {
+	for _, root := range []string{"Mid", "Root", "RootNeg", "Tdr"} {
 		depth := 3
 		if root == "Root" {
 			depth = 2
@@ -890,6 +901,24 @@ func main() {
 		"$.Ls[2147483648]", "$.Ls[9223372036854775808]", "$.Im{9223372036854775807}", "$.Im{99999999999999999999}", "$.Im{-1}", "$.Ls[-1]", "$.-1", "$.Sm{\"\\u00e9\\\"\"}", "$.Sm{\"a}", "$.Sm{\"\\", "$.L.*.A", "$.*.*", "$.Ls[*][*]", "$.Dm{1}", "$.Dm{\"a\"}", "$.Dm{*}.A", "$.St[1].A", "$.X.Y", "$.L[1]", "$.Ls{1}", "$.Sm[1]", "$.Sm{1}", "$.Im{\"a\"}"} {
 		c.oneString(s)
 		nstr++
+	}
+	// paths that name nothing the descriptor has (unknown field by name / id incl. ids that only
+	// match after truncation to 32 or 16 bits, wrong container kind, key kind mismatch): NewFieldMask
+	// must return an error and PathInMask must say no
+	for _, s := range []string{"$.Nope", "$.9", "$.32767", "$.65537", "$.2147483647", "$.2147483648", "$.4294967296", "$.4294967297", "$.4294967298", "$.8589934593", "$.18446744073709551617",
+		"$.L.3", "$.L.Zz", "$.L.4294967297", "$.Ls[0].4294967298", "$.X.Y", "$.X.1", "$.L[1]", "$.L{1}", "$.L{\"a\"}", "$.Ls{1}", "$.Ls{\"a\"}", "$.Sm[1]", "$.Sm{1}", "$.Im{\"a\"}", "$.Im[1]", "$.St[1].A", "$.St{1}", "$.X[0]", "$.X{*}"} {
+		nstr++
+		for _, black := range []bool{false, true} {
+			b := newMask(c.descs["Mid"], black, []string{s})
+			if b.panic != "" {
+				continue // reported by oneString
+			}
+			if b.err == nil {
+				run.Violate(evid.Violation{Class: "invalid-path-accepted:" + s, What: fmt.Sprintf("NewFieldMask(Mid, black=%v, %q) succeeds although the path names nothing in the descriptor", black, s), Replay: map[string]any{"input": s, "black": black}})
+				break
+			}
+		}
+		c.oneString(s)
 	}
 	run.Set("arbitrary_strings", map[string]any{"alphabet": string(alpha), "max_len": maxLen, "count": nstr})
 	run.EvalN("", nstr, nstr-1)
